@@ -32,6 +32,7 @@ static struct {
 static void mon_read(unsigned char ch);
 static void mon_unit(int kind);
 
+#define NO_OUTLOG   /* this harness never looks at the raw output log */
 #include "world.h"
 
 static void mon_read(unsigned char ch)
